@@ -62,8 +62,10 @@ static void add_default_include_paths(char *argv0) {
   strarray_push(&include_paths, "/usr/include/x86_64-linux-gnu");
   strarray_push(&include_paths, "/usr/include");
 
-  // Keep a copy of the standard include paths for -MMD option.
-  for (int i = 0; i < include_paths.len; i++)
+  // Keep a copy of the standard include paths for -MMD option. The
+  // directories named by -I come first in the list and are not among
+  // them.
+  for (int i = include_paths.len - 4; i < include_paths.len; i++)
     strarray_push(&std_include_paths, include_paths.data[i]);
 
   // -idirafter directories are searched after the standard ones.
